@@ -409,9 +409,9 @@ impl<'a> World<'a> {
         let mut rebuild_err = None;
         if rebuild {
             for op in signed.ops() {
+                // register_get gives up at the first error; the comparison below goes on without that op
                 if let Err(e) = rebuilt.apply_op(op.clone()) {
-                    rebuild_err = Some(err_name(&e));
-                    break;
+                    rebuild_err.get_or_insert(err_name(&e));
                 }
             }
         }
@@ -437,7 +437,8 @@ impl<'a> World<'a> {
                 &[("cause", if e == "RegisterAddrMismatch" { "op_address_not_checked" } else { "other" }.into()), ("shape", "client_rebuild_fails".into()), ("error", e.to_string())],
                 format!("r{r} after {whence}: rebuilding the CRDT from the held ops (as register_get does) fails with {e}"),
             );
-        } else if rebuilt_read != read {
+        }
+        if rebuilt_read != read {
             self.violate(
                 "current_values_wrong",
                 &[("shape", "rebuild_differs_from_incremental".into())],
